@@ -152,7 +152,12 @@ POOL_ctx* POOL_create_advanced(size_t numThreads, size_t queueSize,
     if (!ctx->threads || !ctx->queue) { POOL_free(ctx); return NULL; }
     /* Initialize the threads */
     {   size_t i;
-        for (i = 0; i < numThreads; ++i) {
+        for (i = 0; i < numThreads; ++i)
+        ZSTD_VERIF_LOOP(
+            __CPROVER_assigns(i, __CPROVER_object_whole(ctx->threads))
+            __CPROVER_loop_invariant(i <= numThreads)
+            __CPROVER_decreases(numThreads - i))
+        {
             if (ZSTD_pthread_create(&ctx->threads[i], NULL, &POOL_thread, ctx)) {
                 ctx->threadCapacity = i;
                 POOL_free(ctx);
@@ -177,7 +182,12 @@ static void POOL_join(POOL_ctx* ctx) {
     ZSTD_pthread_cond_broadcast(&ctx->queuePopCond);
     /* Join all of the threads */
     {   size_t i;
-        for (i = 0; i < ctx->threadCapacity; ++i) {
+        for (i = 0; i < ctx->threadCapacity; ++i)
+        ZSTD_VERIF_LOOP(
+            __CPROVER_assigns(i)
+            __CPROVER_loop_invariant(i <= ctx->threadCapacity)
+            __CPROVER_decreases(ctx->threadCapacity - i))
+        {
             ZSTD_pthread_join(ctx->threads[i]);  /* note : could fail */
     }   }
 }
